@@ -14,6 +14,9 @@ b, e = "<!-- BEGIN GENERATED tools/design11_table.py -->", "<!-- END GENERATED t
 body = body[:body.index(b) + len(b)] + "\n" + tab.strip("\n") + "\n" + body[body.index(e):]
 sp = os.path.join(V, "docs", "DESIGN_11_seeds.md")
 body = body.replace("PLACEHOLDER_SEEDS", open(sp).read().strip("\n") if os.path.exists(sp) else "(filled at the end of the session)")
-open(os.path.join(V, "DESIGN.md"), "w").write(d.rstrip("\n") + "\n" + body)
+# section 12 (third session) is kept verbatim in docs/DESIGN_12.md and re-appended after section 11
+p12 = os.path.join(V, "docs", "DESIGN_12.md")
+tail = ("\n" + open(p12).read()) if os.path.exists(p12) else ""
+open(os.path.join(V, "DESIGN.md"), "w").write(d.rstrip("\n") + "\n" + body.rstrip("\n") + "\n" + tail)
 subprocess.run(["python3", os.path.join(V, "tools", "design_tables.py")], check=True)
 print("section 11 written")
